@@ -57,7 +57,8 @@ class Sequence(AbstractSequence):
         self.sequence = Seq(data)
         self.alphabet = alphabet
         self.id = id
-        self.sequence_type = type
+        # one canonical spelling ("chromosome" == SequenceType.CHROMOSOME, also as a cache key of Parent)
+        self.sequence_type = SequenceType.sequence_type_str_to_type(type)
         self.parent = make_parent(parent) if parent else None
         self._len = len(self.sequence)
         if validate_parent and self.parent and self.parent.location and len(self.parent.location) != len(self):
